@@ -732,3 +732,51 @@ def blen_(x):
     from pyvc import blen
 
     return blen(x)
+
+
+# ---------------------------------------------------------------------------------------------------------------
+# the two reasons for pausing the transport (body flow control, request-queue cap) do not wedge each other
+
+
+@unit("C05", "resume_msg_queue", functions=[f"{MOD}:RequestHandler._resume_msg_queue_reading"])
+def resume_msg_queue(u: U):
+    """_resume_msg_queue_reading (called by start() each time it takes a request off the queue): unless the queue is still
+    at its cap (or the upgraded-data buffer is full) it gives up ITS reason for the pause - `_msg_queue_paused` becomes
+    False - whatever the body reader's flow control says, and resumes the transport only if that other reason does not
+    hold.  (BaseProtocol.resume_reading, contracts/c08.py, does the mirror image.)  If the flag stayed set while the
+    queue is empty, each side would wait for the other and the connection would never be read again."""
+    log = []
+    upgraded = u.choose(2, "upgraded") == 1
+    body_paused = u.choose(2, "body_flow_control_paused") == 1
+    queued_after = u.choose(3, "queued_after_reparse")
+    maxq = 2
+    tail_full = u.choose(2, "upgraded_tail_full") == 1 if upgraded else False
+    msgs = collections_deque(["m"] * 0)
+
+    class _T:
+        def resume_reading(self):
+            log.append(("transport.resume",))
+
+    def data_received(self, d):
+        log.append(("reparse", d))
+        msgs.extend(["m"] * queued_after)
+
+    h = u.obj("RequestHandler", {"_message_tail": b"x" * 8 if tail_full else b"", "_read_bufsize": 8, "_upgraded": upgraded,
+                                 "_messages": msgs, "_max_msg_queue_size": maxq, "_msg_queue_paused": True,
+                                 "_reading_paused": body_paused, "transport": _T()},
+              {"data_received": data_received}, shared=False, real=(MOD, "RequestHandler"))
+    f = u.load(MOD, "RequestHandler._resume_msg_queue_reading")
+    out = u.call(f, h)
+    u.check("C05.resume.total", out.ok, repr(out))
+    fs = fields(h)
+    still_capped = tail_full or (not upgraded and queued_after >= maxq)
+    if still_capped:
+        u.check("C05.resume.stays_paused_at_cap", fs["_msg_queue_paused"] is True and ("transport.resume",) not in log,
+                "while the queue is still at its cap (or the upgraded-data buffer is full) nothing is resumed")
+        return
+    u.check("C05.resume.queue_reason_given_up", fs["_msg_queue_paused"] is False,
+            "once the queue is below its cap the queue's reason for the pause is withdrawn, also while the body reader's flow "
+            "control keeps the transport paused: otherwise body reader and request loop wait for each other for ever",
+            witness={"body_flow_control_paused": body_paused, "upgraded": upgraded})
+    u.check("C05.resume.transport_iff_no_other_reason", (("transport.resume",) in log) == (not body_paused),
+            "the transport itself is resumed exactly when the body reader's flow control does not hold it paused")
